@@ -165,6 +165,25 @@ def _run(prop, tier, seed, a, t0):
         print(f"CHECKER-CRASH property={prop}")
         return 3
 
+    # ---- witnesses of open findings first: obligations tagged with a reproduced open finding are the
+    #      raw failing clauses (expected to fail) and are not sent to the solvers
+    for f in open_findings:
+        w = f.get("witness")
+        if not w:
+            continue
+        rc, out, err = run_native(os.path.join(VERIF, w), timeout=300)
+        if rc == 1 and "REPLAY-VIOLATION" in out:
+            f["_reproduced"] = True
+        elif rc == 0:
+            f["_reproduced"] = False
+        else:
+            print(f"witness {w} of finding {f['id']} did not run (rc={rc}):\n{out[-500:]}\n{err[-1500:]}")
+            print(f"CHECKER-CRASH property={prop}")
+            return 3
+    skip_ids = {f["id"] for f in open_findings if f.get("_reproduced")}
+    skipped = [o for o in all_obls if o.meta.get("finding") in skip_ids]
+    all_obls = [o for o in all_obls if o.meta.get("finding") not in skip_ids]
+
     # ---- discharge
     ts = time.time()
     results = solve.discharge(all_obls, timeout_s=timeout_s, workers=a.workers)
@@ -224,25 +243,16 @@ def _run(prop, tier, seed, a, t0):
             print(f"CHECKER-CRASH property={prop}")
             return 3
 
-    # witnesses of open findings
     for f in open_findings:
-        w = f.get("witness")
-        if not w:
-            continue
-        rc, out, err = run_native(os.path.join(VERIF, w), timeout=300)
-        if rc == 1 and "REPLAY-VIOLATION" in out:
+        if f.get("_reproduced"):
             known_lines.append((f["id"], f["what"]))
-            f["_reproduced"] = True
-        elif rc == 0:
-            f["_reproduced"] = False
-        else:
-            print(f"witness {w} of finding {f['id']} did not run (rc={rc}):\n{out[-500:]}\n{err[-1500:]}")
-            print(f"CHECKER-CRASH property={prop}")
-            return 3
 
     # ---- classify solver results
+    def _tagged_open(r):
+        fid = r.meta.get("finding")
+        return bool(fid and any(f["id"] == fid for f in open_findings))
     failed = [r for r in results if r.status == "sat"]
-    unknown = [r for r in results if r.status == "unknown"]
+    unknown = [r for r in results if r.status == "unknown" and not _tagged_open(r)]
     discharged = [r for r in results if r.status == "unsat"]
     by_name = {}
     for r in failed:
@@ -256,12 +266,31 @@ def _run(prop, tier, seed, a, t0):
         rp = make_replay(prop, name, rs, per_proof, [o for o in all_obls if o.name == name])
         violations.append((name, rp[0], rp[1], rp[2]))
 
+    # undecided obligations: fall back to the proof's native contract evaluation (witness battery); a
+    # concrete failing input is a violation with a genuine replay, otherwise the obligation stays undecided
+    unk_by_proof = {}
+    for r in unknown:
+        unk_by_proof.setdefault(r.meta.get("proof"), []).append(r)
+    fallback = []
+    for pn, rs in unk_by_proof.items():
+        prf = per_proof.get(pn, {}).get("proof")
+        if prf is None or prf.native is None:
+            continue
+        rp = make_replay(prop, rs[0].name, rs, per_proof, [])
+        fallback.append({"proof": pn, "obligation": rs[0].name, "native_failing_input": rp[2]})
+        if rp[2]:
+            violations.append((rs[0].name, rp[0], "undecided by the solvers; " + rp[1], True))
+
     # obligations tagged as the raw clause of an open finding do not count as obligations
     def counts(r):
         fid = r.meta.get("finding")
         return not (fid and any(f["id"] == fid for f in open_findings))
-    n_obl = sum(1 for r in results if counts(r))
-    n_dis = sum(1 for r in results if counts(r) and r.status == "unsat")
+    def shape_bounded(r):
+        return bool(r.meta.get("bounded_shape"))
+    n_obl = sum(1 for r in results if counts(r) and not shape_bounded(r))
+    n_dis = sum(1 for r in results if counts(r) and not shape_bounded(r) and r.status == "unsat")
+    n_sb = sum(1 for r in results if counts(r) and shape_bounded(r))
+    n_sb_dis = sum(1 for r in results if counts(r) and shape_bounded(r) and r.status == "unsat")
 
     seen = set()
     for fid, txt in known_lines:
@@ -287,6 +316,9 @@ def _run(prop, tier, seed, a, t0):
         "violations": len(violations),
         "coverage": {
             "obligations": n_obl, "discharged": n_dis,
+            "shape_bounded": {"obligations": n_sb, "discharged": n_sb_dis,
+                              "note": "obligations discharged for ALL values of the symbolic leaves (parameters, flags) but at FIXED structure "
+                                      "(circuit shape / register size); reported separately and not counted in obligations/discharged"},
             "checker_cmd": f"python3-vt /verif/pyvc/check.py {prop} --tier {tier}",
             "trusted_base": sorted(trusted) + sorted(api.TRUSTED.get(prop, [])),
             "explanation": api.EXPLAIN.get(prop, ""),
@@ -297,7 +329,9 @@ def _run(prop, tier, seed, a, t0):
             "solver_cpu_s": round(solver_cpu, 3), "solver_wall_s": round(solver_wall, 3),
             "per_obligation": [r.as_dict() for r in results][:4000],
             "undischarged": [r.as_dict() for r in unknown],
+            "skipped_raw_clauses_of_open_findings": sorted({o.name for o in skipped})[:200],
             "undecided": [{"where": w, "reason": why} for w, why in undecided],
+            "native_fallback_for_undecided": fallback,
             "bounded_standins": [{k: v for k, v in b.items()} for b in bounded],
             "known_findings": [{"id": f["id"], "what": f["what"], "reproduced": f.get("_reproduced")} for f in open_findings],
             "fixed_findings": [f for f in findings if f.get("status") == "fixed"],
@@ -316,7 +350,7 @@ def _run(prop, tier, seed, a, t0):
         with open(os.path.join(VERIF, "evidence", f"{prop}.json"), "w") as f:
             json.dump(ev, f, indent=1, default=str)
 
-    print(f"[{prop}/{tier}] proofs={len(per_proof)} paths={stats['paths']} obligations={n_obl} discharged={n_dis} "
+    print(f"[{prop}/{tier}] proofs={len(per_proof)} paths={stats['paths']} obligations={n_obl} discharged={n_dis} shape-bounded={n_sb_dis}/{n_sb} "
           f"sat={len(failed)} unknown={len(unknown)} undecided={len(undecided)} bounded={len(bounded)} "
           f"known={len(seen)} wall={wall:.1f}s solver_cpu={solver_cpu:.1f}s")
     if a.v or unknown or undecided:
@@ -386,14 +420,20 @@ def _make_replay(prop, name, rs, per_proof, obls=()):
                 script = prf.replay(model, name, r)
             else:
                 for ob in obls:
-                    m, label = solve.live_model(ob)
-                    if m is None:
-                        continue
-                    inputs = {}
-                    for nm, obj in ob.inputs:
-                        inputs[nm] = solve.concretize(m, obj)
-                    script = "I = " + repr(inputs) + "\nOBLIGATION = " + repr(name) + "\n" + NATIVE_PRELUDE + prf.native
-                    break
+                    try:
+                        m, label = solve.live_model(ob)
+                        if m is None:
+                            continue
+                        inputs = {}
+                        for nm, obj in ob.inputs:
+                            inputs[nm] = solve.concretize(m, obj)
+                        script = "I = " + repr(inputs) + "\nOBLIGATION = " + repr(name) + "\n" + NATIVE_PRELUDE + prf.native
+                        break
+                    except Exception as e:
+                        body.append(f"# counter-model could not be turned into concrete inputs: {e!r}")
+                if script is None:
+                    # witness battery only
+                    script = "I = None\nOBLIGATION = " + repr(name) + "\n" + NATIVE_PRELUDE + prf.native
         except Exception as e:
             script = None
             body.append(f"# native replayer raised {e!r}")
